@@ -136,6 +136,13 @@ def purity(rep, prog):
             rep.ob('R17.pure', q, True, 'does not write to its arguments', f.site)
     if n < 15:
         raise AnalysisError(f'only {n} loader functions found')
+    # a cached loader returns the first answer for a description that changed in the meantime
+    from ..effects import cache_decorators
+    caches = [c for c in cache_decorators(prog) if c[0].startswith(PURE_SCOPE)]
+    for q, d, site in caches:
+        rep.ob('R17.pure', f'{q}@cache', False, f'loader is wrapped in @{d}: a second load of a changed description returns the cached first result', site)
+    if not caches:
+        rep.ob('R17.pure', 'no-cached-loader', True, 'no loader / converter keeps results across calls')
 
 
 # ---------------------------------------------------------------------------------------------- R17.formula
@@ -166,13 +173,17 @@ def formulas(rep, prog):
         'abs-phase_deg': ({'abs': A('r'), 'phase_deg': A('ph')}, "r*(cos(ph*pi/180) + 1j*sin(ph*pi/180))"),
     }
     for name, (val, sp_src) in notations.items():
-        got = _leaf_conversion(prog, g, val)
-        ev = Evaluator(prog)
-        sp = spec(ev, sp_src, {'re': A('re'), 'im': A('im'), 'r': A('r'), 'ph': A('ph')}, g.mod)
-        if got is None:
-            rep.ob('R17.formula', f'undictify:{name}', None, 'conversion of this notation not found', g.site)
-        else:
-            rep.ob('R17.formula', f'undictify:{name}', compare_terms(got, sp), f'= {got!r:.160}', g.site, lhs=got, rhs=sp)
+        # a notation is a SET of fields: both insertion orders of the dictionary must convert alike (yaml.dump sorts keys, json keeps them)
+        for order, v in (('', val), (':fields-reversed', dict(reversed(list(val.items()))))):
+            got = _leaf_conversion(prog, g, v)
+            ev = Evaluator(prog)
+            sp = spec(ev, sp_src, {'re': A('re'), 'im': A('im'), 'r': A('r'), 'ph': A('ph')}, g.mod)
+            if got is None:
+                rep.ob('R17.formula', f'undictify:{name}{order}', None, 'conversion of this notation not found', g.site)
+            elif isinstance(got, dict):
+                rep.ob('R17.formula', f'undictify:{name}{order}', False, f'a dictionary with the fields {list(v)} is not recognised as a complex number (left as {got!r:.80})', g.site)
+            else:
+                rep.ob('R17.formula', f'undictify:{name}{order}', compare_terms(got, sp), f'= {got!r:.160}', g.site, lhs=got, rhs=sp)
     # dictify leaf: complex -> {'real','imag'}
     h = prog.func(DL, 'dictify_complex_values')
     keys = set()
